@@ -49,6 +49,16 @@ def generate(rng, tier, shard, nshards):
         if gi % 2 == 0:
             pre = [rng.choice(sorted(g.V)) for _ in range(2)]
             yield gops.event("derivative", dict(base, pre=pre, L=2), site="derivative.derivative", feat=feat)
+        else:
+            # repeated derivatives with explicit indices (the same token twice with different indices, too)
+            a = rng.choice(sorted(g.V))
+            pre = [a, rng.choice([a, a] + sorted(g.V))]
+            idx = [rng.choice([0, 1, None]), rng.choice([0, 1, 2])]
+            yield gops.event("derivative", dict(base, pre=pre, idx=idx, L=2), site="derivative(a, i).derivative(b, j)",
+                             feat=feat + "+indexed")
+            for y in fam.strings(g.V, 2):
+                yield gops.event("derivcall", dict(base, pre=pre, idx=idx, y=[str(x) for x in y]), site="derivative(a, i)(y)",
+                                 feat=feat + "+indexed")
 
 
 def selftests(events, rng):
